@@ -724,7 +724,7 @@ func main() {
 	r.Assume = []string{
 		"BIDX (8 bytes of the txid) and UIdx (8 other bytes xor vout) are injective on the transactions in play (hypothesis of the theorems; generated txids are random, no collisions are constructed)",
 		"script verdicts, serialized sizes, wall-clock time, byte footprints and the fee floor in force are inputs of the model, taken from the run",
-		"CPFP fee packages (pkgs.go) are not modelled: GetSortedMempoolRBF is checked by the property predicate only (permutation, parents first, block accepted)",
+		"CPFP fee packages (pkgs.go): their membership is observed from gocoin (FeePackages) and validated by the model (pkgOK); the merge of GetSortedMempoolRBF is modelled and compared element by element",
 		"amounts stay far below 2^64 (no uint64 wrap in fee products); size-based limits of the rejected list are kept out of reach",
 		"transactions from trusted peers / the local wallet (Trusted: scripts are not run) carry valid scripts; corrupted signatures are only sent on the untrusted path",
 		"blocks handed to the chain are valid; the harness applies client/main.go's wiring (callbacks, BlockCommitInProgress, common.Last) itself",
@@ -765,5 +765,5 @@ func finish(r *vlib.Run) {
 	os.Stdout = realOut
 	syscall.Dup2(int(realErr.Fd()), 2)
 	r.Finish("one case = the real pool state after one operation of a history (submit net/trusted/local, block, reorg, expiry tick, eviction tick, save+reload); distinct = different (pool, rejected) dumps; each compared with the Lean model and checked against the property predicate incl. a block template validated by the node",
-		"Real client/txpool driven in-process on a chainkit chain with the client's own wiring; after every operation the full observable state (TransactionsToSend with Fee/Volume/MemInputs/Final/Local, SpentOutputs, reject ring, WaitingForInputs, RejectedSpentOutputs, sorted list, totals) is compared with Model/Mempool.lean, and C12's predicate is evaluated directly on the real pool: no double spend, every input confirmed-unspent or pooled, SpentOutputs exact, nothing pooled confirmed, Fee = in - out, sizes from the raw bytes, MempoolCheck(), GetSortedMempoolRBF() parents-first permutation, block built from it accepted by CheckBlock + ProcessBlockTransactions with scripts verified.")
+		"Real client/txpool driven in-process on a chainkit chain with the client's own wiring; after every operation the full observable state (TransactionsToSend with Fee/Volume/MemInputs/Final/Local, SpentOutputs, reject ring, WaitingForInputs, RejectedSpentOutputs, sorted list, totals) is compared with Model/Mempool.lean, gocoin's FeePackages are validated by the model (pkgOK) and its merge of the sorted list with them is compared element by element with GetSortedMempoolRBF(), and C12's predicate is evaluated directly on the real pool: no double spend, every input confirmed-unspent or pooled, SpentOutputs exact, nothing pooled confirmed, Fee = in - out, sizes from the raw bytes, MempoolCheck(), GetSortedMempoolRBF() parents-first permutation, block built from it accepted by CheckBlock + ProcessBlockTransactions with scripts verified.")
 }
